@@ -158,6 +158,9 @@ class RomFSReader(TypeReaderBase, FS):
                                        f'({ivfc_magic_num:#X} instead of {IVFC_ROMFS_MAGIC_NUM:#X})')
             master_hash_size = readle(header[0x8:0xC])
             lv3_block_size = readle(header[0x4C:0x50])
+            if lv3_block_size > 0x3F:
+                # the exponent comes from the file: 1 << 0xFFFFFFFF is a 512 MiB integer
+                raise InvalidIVFCError(f'IVFC level 3 block size exponent is too large ({lv3_block_size:#x})')
             lv3_hash_block_size = 1 << lv3_block_size
             lv3_offset += roundup(0x60 + master_hash_size, lv3_hash_block_size)
             self._file.seek(self._start + lv3_offset)
